@@ -148,6 +148,28 @@ fn eval_gt(ctx: &Ctx, case: &GtCase) -> Verdict {
             ensure!(run.clean_failure(), "{what}: a non-diploid genotype in a selected sample must fail the run with a diagnostic: {}", run.describe());
             ensure!(run.stdout.is_empty(), "{what}: a failing run must not write a spectrum: {}", run.describe());
             ensure!(names_site(&stderr), "{what}: the error must name contig {CONTIG} and position {POS}: {}", run.describe());
+            // the same whatever else is asked for: a projection (also one that projects the
+            // offending sample's population to zero individuals), strict mode, quiet logging
+            let two_pops = MapSpec {
+                entries: vec![(1, None), (0, Some(0))],
+                labels: vec!["Zq".into()],
+                as_file: false,
+            };
+            let one_pop = MapSpec { entries: vec![(1, None), (0, None)], labels: vec![], as_file: false };
+            for (label, o) in [
+                ("-p 1", CreateOpts { map: Some(one_pop.clone()), project: Some(crate::props::common::Projection { m: vec![2], individuals: true }), ..Default::default() }),
+                ("--project-shape 2", CreateOpts { map: Some(one_pop.clone()), project: Some(crate::props::common::Projection { m: vec![1], individuals: false }), ..Default::default() }),
+                ("-p 1,0 (the sample's own population projected away)", CreateOpts { map: Some(two_pops.clone()), project: Some(crate::props::common::Projection { m: vec![2, 0], individuals: true }), ..Default::default() }),
+                ("--strict -q", CreateOpts { map: Some(one_pop.clone()), strict: true, quiet: 1, ..Default::default() }),
+            ] {
+                let (r, a) = run_create(ctx, &dir, "c08", &cs, &container, &o, Transport::Path);
+                ensure!(
+                    r.clean_failure() && r.stdout.is_empty() && names_site(&r.stderr_str()),
+                    "{what}: with {label} (`sfs {}`) the non-diploid genotype must still fail the run, naming {CONTIG}:{POS}, without output: {}",
+                    a.join(" "),
+                    r.describe()
+                );
+            }
         }
     }
     Ok(pass)
@@ -235,7 +257,7 @@ pub fn check(ctx: &Ctx) -> Check {
     let parts: Vec<Box<dyn Part>> = vec![
         Box::new(EnumPart {
             name: "gt-alphabet",
-            rule: "EVERY GT string over alleles {., 0, 1, 2, 3, 10}, separators {/, |}, ploidy 1..3 (942 strings; plus allele indices 255..257, 511..513, 65536/7, 2^32(+1) in the VCF path; thorough adds ploidy 4 over {., 0, 1, 2} and every allele index up to 62) x {VCF text, BCF binary} x {probe sample selected, not selected}, plus every string of ploidy <= 2 in records whose ALT column has 0 or 1 alleles (fewer than the genotype refers to), one record with a distinctive contig and position, `sfs create -vv`: counted at index a+b / skipped with the stated reason / run fails naming contig and position / no effect when unselected; non-trivial = not one of the 11 strings the unit tests use; distinct by (string, path, selection)",
+            rule: "EVERY GT string over alleles {., 0, 1, 2, 3, 10}, separators {/, |}, ploidy 1..3 (942 strings; plus allele indices 255..257, 511..513, 65536/7, 2^32(+1) in the VCF path; thorough adds ploidy 4 over {., 0, 1, 2} and every allele index up to 62) x {VCF text, BCF binary} x {probe sample selected, not selected}, plus every string of ploidy <= 2 in records whose ALT column has 0 or 1 alleles (fewer than the genotype refers to), one record with a distinctive contig and position, `sfs create -vv`: counted at index a+b / skipped with the stated reason / run fails naming contig and position (also under -p, --project-shape, a projection of the sample's own population to zero, --strict -q) / no effect when unselected; non-trivial = not one of the 11 strings the unit tests use; distinct by (string, path, selection)",
             exhaustive: true,
             cases: Box::new(move |_| {
                 let mut strings = all_gt_strings(&[None, Some(0), Some(1), Some(2), Some(3), Some(10)], 3);
